@@ -273,7 +273,8 @@ func c12Check(c *Ctx, cs c12Case) *Failure {
 	defer os.RemoveAll(tmp)
 	tmp, _ = filepath.EvalSymlinks(tmp)
 	// nested, so that `../x` from the project directory stays inside the case's own directory
-	root := filepath.Join(tmp, "outer", "root")
+	// (random paths carry up to four leading `..` segments)
+	root := filepath.Join(tmp, "o1", "o2", "o3", "o4", "root")
 	home := filepath.Join(root, "home dir")
 	_ = os.MkdirAll(home, 0o755)
 	oldHome, hadHome := os.LookupEnv("HOME")
